@@ -53,6 +53,7 @@ inductive Act where
   | commit
   | rollback
   | sql (id : String)   -- one statement of the statement table
+  | sqlFail (id : String) -- a statement that raised (e.g. OverflowError at bind)
   | fr (f : Nat)        -- value file opened for reading
   | frm (f : Nat)       -- Disk.remove
   deriving DecidableEq, Repr
@@ -80,6 +81,8 @@ structure Cache where
   envMiss : Bool := false        -- the model wanted an observation the run did not make
   depth : Nat := 0               -- nesting depth of open transaction blocks
   snap : Option Snap := none     -- state at the outermost BEGIN
+  pending : List (Option Nat) := []  -- files to remove after the outermost COMMIT
+  created : List Nat := []       -- files written for the open block (removed on ROLLBACK)
   deriving Repr, Inhabited
 
 inductive Out where
@@ -282,9 +285,11 @@ value file written before the transaction (removed if the body raises and this
 call began the transaction). -/
 def transact (s : Cache) (body : Cache → Body) (fresh : Option Nat := none) : Cache × Out :=
   if s.depth > 0 then
-    -- inside a transaction block owned by this thread: no BEGIN, no COMMIT
+    -- inside a transaction block owned by this thread: no BEGIN, no COMMIT;
+    -- file removal is left to the outermost transaction
+    let s := match fresh with | some f => { s with created := s.created ++ [f] } | none => s
     let b := body s
-    if b.ok then (b.s.fremoveAll b.cleanup, b.out) else (b.s, b.out)
+    if b.ok then ({ b.s with pending := b.s.pending ++ b.cleanup }, b.out) else (b.s, b.out)
   else
     let p := s.takeSnap
     let b := body (s.log .begin)
@@ -295,21 +300,31 @@ def transact (s : Cache) (body : Cache → Body) (fresh : Option Nat := none) : 
       let s := match fresh with | some f => s.fremove f | none => s
       (s, b.out)
 
+/-- `Cache._remove_committed`: the file of a row deleted by pop/pull -/
+def removeCommitted (s : Cache) (f : Option Nat) : Cache :=
+  match f with
+  | none => s
+  | some f => if s.depth > 0 then { s with pending := s.pending ++ [some f] } else s.fremove f
+
 /-- `with cache.transact():` entered -/
 def tbegin (s : Cache) : Cache :=
-  if s.depth == 0 then { (s.log .begin) with depth := 1, snap := some s.takeSnap }
+  if s.depth == 0 then { (s.log .begin) with depth := 1, snap := some s.takeSnap, pending := [], created := [] }
   else { s with depth := s.depth + 1 }
 
 /-- block left normally -/
 def tend (s : Cache) : Cache :=
-  if s.depth == 1 then { (s.log .commit) with depth := 0, snap := none }
+  if s.depth == 1 then
+    let s := { (s.log .commit) with depth := 0, snap := none }
+    { (s.fremoveAll s.pending) with pending := [], created := [] }
   else { s with depth := s.depth - 1 }
 
 /-- an exception leaves `n` nested blocks -/
 def traise (s : Cache) (n : Nat) : Cache :=
   if n ≥ s.depth && s.depth > 0 then
     match s.snap with
-    | some p => { ((s.restore p).log .rollback) with depth := 0, snap := none }
+    | some p =>
+      let s := { ((s.restore p).log .rollback) with depth := 0, snap := none }
+      { (s.fremoveAll (s.created.map some)) with pending := [], created := [] }
     | none => { s with depth := 0 }
   else { s with depth := s.depth - n }
 
@@ -433,7 +448,10 @@ def incr (s : Cache) (E : Externals) (now : Int) (k : PyVal) (delta : Int) (dflt
       if expired now r then fresh s (some r)
       else
         match r.val with
-        | .int i => { s := s.updIncr r.rowid now (.int (i + delta)), out := .int (i + delta) }
+        | .int i =>
+          if inI64 (i + delta) then
+            { s := s.updIncr r.rowid now (.int (i + delta)), out := .int (i + delta) }
+          else { s := s.log (.sqlFail "updIncr"), out := .exc "OverflowError", ok := false }
         | _ => { s := s, out := .exc "TypeError", ok := false }
 
 /-- `Cache.get` (core.py:1123-1222); `getitem`/`read` are wrappers. -/
@@ -487,7 +505,7 @@ def pop (s : Cache) (E : Externals) (now : Int) (k : PyVal) (et tg : Bool) : Cac
   | none => (s, defaultFlags et tg)
   | some r =>
     let (s, f) := s.fetchRow E r false
-    let s := match r.file with | some fl => s.fremove fl | none => s
+    let s := s.removeCommitted r.file
     match f with
     | .ioerror => (s, defaultFlags et tg)
     | f => (s, withFlags (fetchedOut f) et tg r.expT r.tag)
@@ -582,6 +600,10 @@ def push (s : Cache) (E : Externals) (now : Int) (v : PyVal) (prefix_ : Option S
       | none => { s := s, out := .exc "ValueError", ok := false }
       | some num =>
         let dbk := queueKey prefix_ num
+        if (s.selKey dbk true).isSome then
+          -- UNIQUE index Cache_key_raw: an ordinary key sits just outside the queue range
+          { s := s.log (.sqlFail "insRow"), out := .exc "IntegrityError", ok := false }
+        else
         let s := s.insRow dbk true now c
         let (s, cl) := s.cullW now
         { s := s, out := .val (column dbk), cleanup := cl }
@@ -607,7 +629,7 @@ def pullLoop (E : Externals) (now : Int) (prefix_ : Option Str) (front : Bool) (
         let (s, _) := s.transact fun s =>
           { s := (s.logSql "selQueueHead").delRow r.rowid, out := .none }
         let (s, f) := s.fetchRow E r false
-        let s := match r.file with | some fl => s.fremove fl | none => s
+        let s := s.removeCommitted r.file
         match f with
         | .ioerror => pullLoop E now prefix_ front et tg fuel s
         | f => (s, withFlags (.tup [.val (column r.key), fetchedOut f]) et tg r.expT r.tag)
@@ -805,8 +827,9 @@ def volumeOp (s : Cache) : Cache × Out :=
 /-- `stats(enable, reset)` (core.py:2311-2328) -/
 def stats (s : Cache) (enable reset : Bool) : Cache × Out :=
   let out := Out.tup [.int s.hits, .int s.misses]
-  let s := if reset then { s with hits := 0, misses := 0 } else s
-  ({ s with statistics := enable }, out)
+  let s := (s.logSql "getHits").logSql "getMisses"
+  let s := if reset then ({ s with hits := 0, misses := 0 }.logSql "setHits").logSql "setMisses" else s
+  ({ s with statistics := enable }.logSql "setStatistics", out)
 
 end Cache
 end DC
